@@ -4,7 +4,7 @@ import kv
 
 ID = "C01"
 MODULE = "C01"
-IMPORTS = "Bytes PathSan PathSanProofs PathSanPipe PathSanPipeProofs"
+IMPORTS = "Bytes PathSan PathSanProofs PathSanServe PathSanServeProofs PathSanPipe PathSanPipeProofs"
 PROFILES = ("dev",)
 INSIDE = ("exists names : list bytes, names <> [] /\\ Forall (fun s => proper_name s = true) names /\\ "
           "descend (fst P) names = Some (File c)")
@@ -42,73 +42,168 @@ THEOREMS = [
      "decoded_for_check p = d /\\ util_percent_decode p = d /\\ d = percent_decode p"),
     ("accepted_path_never_panics",
      "forall host public p : bytes, sanitize_path p = Ok tt -> request_fs_path host public p <> Panic"),
+    ("unsafe_reads_only_the_error_page",
+     "forall (h : host_cfg) (rd : bytes -> option bytes) (on : bool) (fc : fcache) (m : meth) (ov : option bytes) (cached : option reply) (p : bytes), "
+     "unsafe (percent_decode p) -> let '(r, ev, fc', os) := serve_st h rd on fc m ov cached p in "
+     "r_status r = 400 /\\ r_body r = None /\\ r_from_cache r = false /\\ silent ev /\\ Forall (fun f => f = error_path h 400) os /\\ "
+     "(forall k, k <> error_path h 400 -> fc_get k fc' = fc_get k fc)"),
+    ("fcache_transparent",
+     "forall (h : host_cfg) (rd : bytes -> option bytes) (on : bool) (fc : fcache) (m : meth) (ov : option bytes) (cached : option reply) (p : bytes), "
+     "fc_coherent rd fc -> let '(r, ev, fc', os) := serve_st h rd on fc m ov cached p in "
+     "(r, ev) = serve h rd m ov cached p /\\ fc_coherent rd fc' /\\ incl os (read_paths ev)"),
+    ("error_page_path_is_constant",
+     "forall (h : host_cfg) (rd : bytes -> option bytes) (on : bool) (fc : fcache) (m : meth) (ov : option bytes) (cached : option reply) (p : bytes), "
+     "let '(r, ev, _, _) := serve_st h rd on fc m ov cached p in forall path, In (EErrRead path) ev -> path = error_path h (r_status r)"),
+    ("error_page_content",
+     "forall (h : host_cfg) (fs : bytes -> option bytes) (m : meth) (ov : option bytes) (p : bytes) (r : reply) (ev : list event) (c : bytes), "
+     "serve h fs m ov None p = (r, ev) -> r_err r = Some c -> fs (error_path h (r_status r)) = Some c"),
     ("history_bodies_confined",
-     "forall (c : pcfg) (root cwd P : pos) (ops : list op), benign_host (pc_host c) -> wf_pos root -> wf_pos cwd -> "
+     "forall (f : front) (c : pcfg) (root cwd P : pos) (ops : list op), benign_host (pc_host c) -> wf_pos root -> wf_pos cwd -> "
      "pc_fs c = read_path root cwd -> resolve_path root cwd (h_path (pc_host c) ++ [c_slash] ++ h_public (pc_host c)) = Some P -> "
-     "Forall (answer_ok c P) (run_history c [] ops)"),
+     "Forall (answer_ok c P) (run_history_with f (fmt_std c) c empty_state ops)"),
     ("unsafe_request_is_400_in_every_state",
-     "forall (c : pcfg) (cache : cache_t) (m t : bytes) (k : N) (p : bytes), starts_with [c_slash] t = true -> uri_path t = Some p -> "
-     "unsafe (percent_decode p) -> step_request c cache m t k = (XL [XN 400; XB errpage; XL []], cache)"),
+     "forall (f : front) (c : pcfg) (st : pstate) (m t : bytes) (k : N) (p : bytes) (q : option bytes), f_uri f t = Some (p, q) -> "
+     "unsafe (percent_decode p) -> fc_coherent (pc_fs c) (snd st) -> exists (body : bytes) (opens : list bytes) (fc' : fcache), "
+     "step_request_with f (fmt_std c) c st m t k = (XL [XN 400; XB body; XL []; x_list XB opens], (fst st, fc')) /\\ "
+     "(body = errpage \\/ pc_fs c (error_path (pc_host c) 400) = Some body) /\\ "
+     "Forall (fun o => In o (open_name (pc_tree c) (error_path (pc_host c) 400))) opens /\\ "
+     "(forall f0, f0 <> error_path (pc_host c) 400 -> fc_get f0 fc' = fc_get f0 (snd st))"),
     ("internal_routes_need_override",
-     "forall (c : pcfg) (cache : cache_t) (m t : bytes) (k : N), benign_host (pc_host c) -> override_of (pc_default_ext c) m k = None -> "
-     "step_request (strip_internal c) cache m t k = step_request c cache m t k"),
+     "forall (f : front) (c : pcfg) (st : pstate) (m t : bytes) (k : N), benign_host (pc_host c) -> "
+     "override_of (pc_default_ext c) m (f_kind f t k) = None -> "
+     "step_request_with f (fmt_std (strip_internal c)) (strip_internal c) st m t k = step_request_with f (fmt_std c) c st m t k"),
+    ("opened_objects_confined",
+     "forall (h : host_cfg) (rd : bytes -> option bytes) (tree : node) (on : bool) (fc : fcache) (m : meth) (ov : option bytes) "
+     "(cached : option reply) (p : bytes) (r : reply) (ev : list event) (fc' : fcache) (os : list bytes) (f : bytes) (stP names : list bytes) (isdir : bool), "
+     "benign_host h -> serve_st h rd on fc m ov cached p = (r, ev, fc', os) -> In f os -> "
+     "cwalk tree [] (segments (h_path h ++ [c_slash] ++ h_public h)) = Some stP -> opened tree f = Some (names, isdir) -> "
+     "f = error_path h (r_status r) \\/ isdir = true \\/ "
+     "exists rel : list bytes, rel <> [] /\\ Forall (fun s => proper_name s = true) rel /\\ names = rev stP ++ rel"),
+    ("read_is_opened",
+     "forall (tree : node) (f c : bytes), starts_with [c_slash] f = true -> read_path (tree, []) (tree, []) f = Some c -> "
+     "forall (names : list bytes) (isdir : bool), opened tree f = Some (names, isdir) -> isdir = false /\\ descend tree names = Some (File c)"),
+    # the predicates the statements use, pinned with their bodies
+    ("def_unsafe",
+     "forall d : bytes, unsafe d <-> ((exists a b, d = a ++ [c_dot; c_slash] ++ b) \\/ ~ (exists r, d = c_slash :: r) \\/ "
+     "(exists r, d = c_slash :: c_slash :: r))"),
+    ("def_silent",
+     "forall ev : list event, silent ev <-> forallb (fun e => negb match e with EPrepareSingle _ | EPrepareRun _ | EPrepareFn | EFsRead _ => true "
+     "| _ => false end) ev = true"),
+    ("def_benign_host",
+     "forall h : host_cfg, benign_host h <-> "
+     "((has_dot_slash_b (percent_decode (h_ext_default h)) = false /\\ hd_is c_slash (percent_decode (h_ext_default h)) = false) /\\ "
+     "(has_dot_slash_b (percent_decode (h_folder_default h)) = false /\\ hd_is c_slash (percent_decode (h_folder_default h)) = false))"),
+    ("def_fc_coherent",
+     "forall (rd : bytes -> option bytes) (fc : fcache), fc_coherent rd fc <-> (forall k e, fc_get k fc = Some e -> e = rd k)"),
+    ("def_read_paths",
+     "forall ev : list event, read_paths ev = flat_map (fun e => match e with EFsRead f => [f] | EErrRead f => [f] | _ => [] end) ev"),
+    ("def_answer_ok",
+     "forall (c : pcfg) (P : pos) (x : xval), answer_ok c P x <-> match x with | XL [XN _; XB b; _; _] => "
+     "b = errpage \\/ b = cors_denied \\/ b = [] \\/ (exists k s, In (k, (b, s)) (pc_handlers c)) \\/ "
+     "(exists names : list bytes, names <> [] /\\ Forall (fun s => proper_name s = true) names /\\ descend (fst P) names = Some (File b)) \\/ "
+     "(exists status : N, pc_fs c (error_path (pc_host c) status) = Some b) | _ => True end"),
+    ("def_strip_internal",
+     "forall c : pcfg, pc_handlers (strip_internal c) = pc_handlers c /\\ pc_fs (strip_internal c) = pc_fs c /\\ "
+     "pc_tree (strip_internal c) = pc_tree c /\\ pc_host_header (strip_internal c) = pc_host_header c /\\ "
+     "pc_cache (strip_internal c) = pc_cache c /\\ pc_fcache (strip_internal c) = pc_fcache c /\\ "
+     "pc_default_ext (strip_internal c) = pc_default_ext c /\\ "
+     "h_prepare_single (pc_host (strip_internal c)) = filter (fun k => negb (has_dot_slash_b k)) (h_prepare_single (pc_host c)) /\\ "
+     "h_path (pc_host (strip_internal c)) = h_path (pc_host c) /\\ h_public (pc_host (strip_internal c)) = h_public (pc_host c) /\\ "
+     "h_errors (pc_host (strip_internal c)) = h_errors (pc_host c) /\\ h_fs (pc_host (strip_internal c)) = h_fs (pc_host c) /\\ "
+     "h_redirect (pc_host (strip_internal c)) = h_redirect (pc_host c) /\\ h_ext_default (pc_host (strip_internal c)) = h_ext_default (pc_host c) /\\ "
+     "h_folder_default (pc_host (strip_internal c)) = h_folder_default (pc_host c)"),
+    ("def_has_dot_slash_b",
+     "forall d : bytes, has_dot_slash_b d = true <-> exists a b, d = a ++ [c_dot; c_slash] ++ b"),
 ]
 RULE = ("(a) direct calls of kvarn_utils::parse::sanitize_request (on an http::Request built from the target), kvarn_utils::percent_decode, "
         "kvarn_utils::make_path and the path construction of get_response against the Coq model (correspondence) and against the "
         "executable specification 'percent-decoded bytes contain ./, do not start with /, or start with //' (oracle); targets are "
         "bounded-exhaustive over the token alphabet {/ . %2e %2E %2f %2F %5c %00 %25 %c0%af %ff a e-acute ..} (quick: all of length <= 4 "
-        "after the leading '/', thorough: <= 6, evaluated in batches of 14^3), all token strings of length <= 3 without the leading '/' "
-        "(other request-target forms), a hand-written list of traversal spellings, a full-detail sample, random longer targets, random "
-        "mutations, arbitrary bytes (mostly refused by http::Uri: out_of_domain); plus make_path, percent_decode on arbitrary text and "
-        "from_utf8 / from_utf8_lossy on byte strings around every UTF-8 boundary. (b) the real request pipeline, in process: a kvarn Host "
-        "over a fixture tree written to disk (files inside the public directory incl. sub-directories, index.html, *.html, names like "
-        "'%2e%2e' and '..\\secret.txt'; SENTINEL files named index.html / *.html / secret.txt / ... in every directory from the run "
-        "directory down to the parent of the public directory and in a sibling of it), with Extensions::new() (uri_redirect and CORS Prime "
-        "extensions) or Extensions::empty(), public_data_dir in {default, pub, www/pub}, response cache on/off, file cache on/off, four "
-        "path-bound Prepare handlers and a predicate-bound Prepare whose predicate logs that it was consulted; histories of 10-30 requests "
-        "(GET/HEAD/POST/OPTIONS, no / same-site / foreign Origin header, with or without access-control-request-method) and of steps that "
-        "copy a response-cache entry to an arbitrary key go through the public kvarn::handle_cache; per request status, content-decoded "
-        "body and the Prepare log are compared with PathSan.serve run over the same tree with the cache threaded through "
-        "(Model/PathSanPipe.v run_history, correspondence) and checked by three oracles that do not use the model: no body contains a "
-        "sentinel; status is 400 exactly when the Coq specification unsafe_b(percent_decode path) holds and then the body is the error "
-        "page and no Prepare was consulted; 403/204/'CORS request denied' never answer a request for which no CORS Prime applies. "
-        "Pipeline targets: the hand-written list under every (extensions x cache) combination and with random methods/Origin kinds, all "
-        "token strings of length <= 3 (quick) / <= 4 (thorough) with and without default extensions and of length 5 with them (thorough), traversal spellings (single, double "
-        "and triple encodings, backslashes, overlong forms) x prefixes x leaves that the default folder/extension expansion turns into "
-        "sentinel names, token strings ending in '/', '.', their single and double encodings, mixed histories with repeated targets, "
-        "poisoned-cache histories. (c) a part of the same scenarios (the hand-written list under the four extensions x cache combinations, "
-        "mixed / traversal / poisoned-cache histories) through the front door: the requests are written as HTTP/1.1 text over a loopback "
-        "TCP connection to a real kvarn server started with RunConfig::execute on the fixture host (request parsing, host selection, "
-        "handle_cache, SendKind::send), compared with the same model (a HEAD answer has no body; a request the server answers by closing "
-        "the connection counts as refused) and checked by the same oracles. distinct_nontrivial counts distinct (component, input, model outcome class) triples; batch cases count "
-        "once each, their targets are reported as targets_in_batches, pipeline requests as pipeline_requests")
+        "after the leading '/', thorough: <= 6, evaluated in batches of 14^3), all token strings of length <= 3 without the leading '/', "
+        "all strings of length <= 2 and random longer ones over a second alphabet of scheme / authority / separator tokens "
+        "{/ . .. %2e %2f : @ [ ] * ? # a % http:// // localhost secret.txt \\ %41} and a hand-written list of absolute-form, authority-form, "
+        "'*' and slash-less targets (http::Uri is modelled for every form: scheme, authority incl. userinfo / port / IPv6 brackets / percent rules, "
+        "path, query, fragment), a hand-written list of traversal spellings, a full-detail sample, random longer targets, random mutations, "
+        "arbitrary bytes; plus make_path, percent_decode on arbitrary text and from_utf8 / from_utf8_lossy on byte strings around every "
+        "UTF-8 boundary. (b) the real request pipeline, in process: a kvarn Host over a fixture tree written to disk (files inside the public "
+        "directory incl. sub-directories, index.html, *.html, names like '%2e%2e' and '..\\secret.txt', and 404.html / 400.html; SENTINEL "
+        "files with the same base names in every directory from the run directory down to the parent of the public directory, in a "
+        "sibling of it and in the errors directory; the operator's error pages <errors_dir>/400.html and 404.html in a part of the "
+        "scenarios), with Extensions::new() (uri_redirect and CORS Prime extensions) or Extensions::empty(), public_data_dir in "
+        "{default, pub, www/pub}, errors_dir in {default, err, err/pages}, extension_default / folder_default in {default, txt, a, a.html, "
+        "sub/index.html, secret.txt, 'index.', percent-encoded and doubly percent-encoded spellings, empty, with a trailing '/'}, "
+        "disable_fs, response cache on/off, file cache on/off, six path-bound Prepare handlers (server cache preference None / "
+        "QueryMatters / Full) and a predicate-bound Prepare whose predicate logs that it was consulted; histories of 10-30 requests "
+        "(GET/HEAD/POST/OPTIONS and rarer methods, no / same-site / foreign Origin header, with or without access-control-request-method, "
+        "targets in every form, with and without query; in a part of the scenarios the client's Host header carries a piece of the "
+        "path: 'localhost/..', 'localhost/%2e%2e', 'localhost?', ... — the fixture host is the collection's default host) and of steps that copy a response-cache entry to an arbitrary key go through the public "
+        "kvarn::handle_cache; per request the status, the content-decoded body (kvarn's generated error page canonicalised by class: it IS "
+        "what kvarn_utils::hardcoded_error_body generates for the status), the Prepare log AND the list of files and directories the "
+        "server process opened below the run directory (inotify IN_OPEN on every directory of the fixture) are compared with "
+        "PathSanServe.serve_st run over the same tree with the response cache and the file cache threaded through (Model/PathSanPipe.v "
+        "run_history, correspondence) and checked by oracles that do not use the model: no body contains a sentinel; status is 400 "
+        "exactly when the Coq specification unsafe_b(percent_decode path) holds and then the body is the generated or the operator's 400 "
+        "page, no Prepare was consulted and nothing but the operator's 400 page was opened; 403/204/'CORS request denied' never answer a "
+        "request for which no CORS Prime applies; a 200 body is a public file's or a handler's; an error body is generated or the "
+        "operator's page for that status; every opened object lies below the public directory or is the operator's error page for the "
+        "status of the answer (or, for a path ending in '..', the directory containing the public directory). A few scenarios use a host "
+        "whose OWN options lead outside (folder_default '../secret.txt', '%2e%2e/secret.txt', ...): the Coq specification component "
+        "reports the hypothesis benign_host as violated, the model must still predict the answers, the confinement oracles are not "
+        "applied. (c) the same scenarios through the front door: HTTP/1.1 text (every target form) over a loopback connection whose "
+        "server end is handed to the public kvarn::handle_connection (request parsing, host selection, handle_cache, SendKind::send), and "
+        "over TLS + HTTP/2 (ALPN h2): with the h2 crate's client (origin-form ':path' incl. double encodings and queries) and with "
+        "hand-written HEADERS frames (ANY text as ':path': without a leading '/', absolute form, '*', '?x' ...; what "
+        "http::uri::PathAndQuery refuses is refused by the server's h2 layer and never becomes a request); compared with the "
+        "same model (a HEAD answer has no body; a request answered by closing the connection / resetting the stream counts as refused) "
+        "and checked by the same oracles. (d) the in-process history once more in a child harness process under 'strace -f -e "
+        "trace=%file': per request the distinct path strings below the run directory handed to ANY file-related system call (open, "
+        "stat, access, ..., successful or not) are compared with the model's list of paths handed to the operating system and checked: "
+        "an unsafe request touches nothing but the operator's 400 page; with benign options every path string starts with the public "
+        "directory or is the operator's error page. distinct_nontrivial counts distinct (component, input, model outcome class) triples; "
+        "batch cases count once each, their targets are reported as targets_in_batches, pipeline requests as pipeline_requests")
 ASSUMPTIONS = [
-    "no symbolic links below or at the public directory and a case-sensitive POSIX file system (the tree model of theorems 1b/1c/6)",
+    "no symbolic links below or at the public directory and a case-sensitive POSIX file system (the tree model of theorems 1b/1c/2f/6)",
     "Unix: Path::is_relative() is 'does not start with /' (the model and the harness run on Linux)",
     "the operator's options extension_default / folder_default are benign (their percent-decoding contains no './' and does not start "
-    "with '/'; true for the defaults 'html' and 'index.html', proved as benign_defaults) — hypothesis of theorems 1c, 3b, 6 and 8",
+    "with '/'; true for the defaults 'html' and 'index.html', proved as benign_defaults) — hypothesis of theorems 1c, 2f, 3b, 6 and 8; "
+    "that it is needed is proved (confinement_without_benign_host_refuted) and exercised (non-benign scenarios)",
+    "the operator's error pages <host.path>/<errors_dir>/<status>.html lie outside the public directory by design and are sent as "
+    "bodies of error answers: theorems 2e / 6 show that their path is a function of the host and of the status code only",
+    "the files do not change while the server runs (fc_coherent: what the file cache holds is what the file system holds; established "
+    "for the empty cache and preserved by every step)",
     "theorems 1c/3b/6/8 speak about the built-in Prime extensions ('Expand . and /', the two CORS reroutes of Extensions::new) and about "
     "Prime extensions returning a /./ override; other operator-written Prime/Prepare/Present extensions that build their own paths "
     "are outside the property (the fixture's Prepare handlers return fixed bodies)",
-    "http::Uri acceptance is modelled for origin-form targets, '*' and bare reg-names; other forms are out of domain of the correspondence; "
-    "the pipeline component takes origin-form targets only and builds the request as c00pipe does (absolute URI http://localhost<target>)",
-    "the response cache is a finite map with read-your-writes (moka; 1024 entries are never reached in a history); its key/fill rules are "
-    "modelled as far as C01 needs them (path only: the fixture never uses ServerCachePreference::QueryMatters; no If-Modified-Since, no "
-    "Vary rules — C03/C04's subject); theorems 2b/7 show it is bypassed for unsafe paths whatever it contains",
-    "error::default reads <host.path>/errors/<status>.html by design; the fixture has no such files",
-    "sequential histories (one request at a time); HTTP/1.1 without TLS on the loopback variant (HTTP/2, HTTP/3 and TLS front ends build the "
-    "same http::Request and call the same handle_cache, but are not driven here)",
+    "the URI of a request is what kvarn's HTTP/1 readers (kvarn_async::read::request, application::parse_http_1) and the in-process "
+    "harness build: scheme '://' Host-header target, parsed by http::Uri (modelled in full: Model/PathSan.v uri_parse); over HTTP/2 the "
+    "h2 crate builds it from ':scheme', ':authority' and ':path' (http::uri::PathAndQuery: must be '*' or start with '/', '?' or '#')",
+    "the response cache and the file cache are finite maps with read-your-writes (moka; their capacities are never reached in a "
+    "history); response-cache keys are UriKey::PathQuery / UriKey::Path with the QueryMatters rule; no If-Modified-Since, no Vary "
+    "rules (C03/C04's subject); theorems 2b/2c/7 show both caches are bypassed for unsafe paths whatever they contain",
+    "sequential histories (one request at a time); HTTP/1.1 without TLS and HTTP/2 over TLS through kvarn::handle_connection on a "
+    "loopback connection (HTTP/3 builds the same http::Request and calls the same handle_cache, but is not driven here; the accept "
+    "loop of RunConfig::execute is C10/C11/C12's subject)",
+    "the file-system access probes see what the kernel reports: inotify IN_OPEN (every scenario) = successful open(2) of an object "
+    "below the run directory; strace %file (a part of the in-process scenarios) = every path string passed to a file-related system "
+    "call by the harness process; memory-mapped or io_uring access is not used by this build (feature uring off)",
 ]
 TRUSTED = ["modelled: utils/src/parse.rs sanitize_request (path part), parse::uri; utils/src/lib.rs percent_decode, make_path; src/lib.rs "
-           "handle_cache / get_response / handle_request / maybe_cache as far as sanitize result, cache key and filling, path "
-           "construction, Prepare lookup and read_file are concerned; src/extensions.rs resolve_prime (uri_redirect), resolve_prepare; "
-           "src/cors.rs with_disallow_cors (when the two Prime extensions reroute, what the two internal handlers answer); "
-           "src/host.rs default_status_code_cache_filter; percent_encoding::percent_decode, core::str::from_utf8 and "
-           "String::from_utf8_lossy are transcribed and compared with the real functions on every run",
-           "the pipeline harness harness/src/c01pipe.rs + c00pipe.rs (fixture on disk under .run/<pid>-<n>/, request construction, "
-           "canonicalisation of kvarn's HTML error pages to 'ERRPAGE', content-decoding of bodies; for the loopback variant a minimal HTTP/1.1 "
-           "client: one request at a time, responses framed by content-length, 8 s read timeouts, port chosen by the kernel) and the Python oracles in "
-           "driver/props/c01.py (sentinel search, status-400 rule against the Coq spec component pathsanpipe.spec, CORS rule)"]
+           "handle_cache / get_response / handle_request / maybe_cache as far as sanitize result, cache keys (UriKey, query_matters) and "
+           "filling, path construction, Prepare lookup and read_file are concerned; src/error.rs default (error-page path and read); "
+           "src/read.rs file / file_cached (file-cache lookup, filling, negative entries); src/host.rs Options::get_errors_dir / "
+           "get_public_data_dir, disable_fs, default_status_code_cache_filter; src/extensions.rs resolve_prime (uri_redirect), "
+           "resolve_prepare; src/cors.rs with_disallow_cors and Cors::is_part_of_origin (when the two Prime extensions reroute, what the "
+           "two internal handlers answer); http::Uri::from_shared (1.5.0: scheme, authority, path-and-query parsers); "
+           "percent_encoding::percent_decode, core::str::from_utf8 and String::from_utf8_lossy are transcribed and compared with the "
+           "real functions on every run",
+           "the pipeline harness harness/src/c01pipe.rs (+ c00pipe.rs build_host / make_request / decode_body): fixture on disk under "
+           ".run/<pid>-<n>/, request construction, canonicalisation of kvarn's generated error page (by comparison with "
+           "kvarn_utils::hardcoded_error_body), content-decoding of bodies; the inotify reader (libc); for the loopback variants a listener "
+           "owned by the harness for the whole scenario (the port is never released), a minimal HTTP/1.1 client (one request at a time, "
+           "responses framed by content-length, 8 s timeouts), the h2 + tokio-rustls client and a minimal HTTP/2 client that writes its frames "
+           "itself (HPACK literals; of the response it decodes :status and the DATA frames); for the system-call trace /usr/bin/strace "
+           "and the parser of its -xx output; and the Python oracles in driver/props/c01.py (sentinel search, status-400 rule against the "
+           "Coq spec component pathsanpipe.spec, CORS rule, opened-objects rule, system-call rule)"]
 EXHAUSTIVE = False
 KERNEL_SAMPLE = 40
 
@@ -213,32 +308,51 @@ def rand_text(rng):
 
 
 # ------------------------------------------------------------------------------------------------
-# pipeline part: the real kvarn::handle_cache on a Host over a fixture tree on disk (harness/src/c01pipe.rs)
-# against PathSan.serve over the same tree (Model/PathSanPipe.v), plus model-independent oracles
+# pipeline part: the real kvarn::handle_cache / kvarn::handle_connection on a Host over a fixture tree on disk
+# (harness/src/c01pipe.rs) against PathSanServe.serve_st over the same tree (Model/PathSanPipe.v), plus model-independent oracles
 # ------------------------------------------------------------------------------------------------
 SENTINEL = b"SENTINEL"
 PUBLIC_DIRS = [b"public", b"pub", b"www/pub"]
 # names chosen so that token strings, the default folder_default / extension_default expansion and single / double
-# decodings hit them: a real file may be called "%2e%2e" or "..\secret.txt"
+# decodings hit them: a real file may be called "%2e%2e" or "..\secret.txt"; 404.html / 400.html also exist INSIDE the
+# public directory (the basenames of the operator's error pages)
 INSIDE = [b"index.html", b"a.html", b"secret.txt", b"secret.html", b"aa", b"a.a", b"%", b"\\", "é".encode(), "aé".encode(),
           b"a/index.html", b"a/a", b"a/a.html", b"a/b.txt", "a/é".encode(), b"a/aa/index.html", b"a/aa/a", b"a\\a", b"..\\secret.txt",
           b"%2e", b"%2f", b"%2e%2e/index.html", b"%2e%2e/secret.txt", b"%2e%2e/a", b"%2e%2e%2fsecret.txt", b".a/a", b"..a", b"a..",
-          b"sub/index.html", b"sub/secret.html", b"sub/%2e%2e/index.html"]
+          b"sub/index.html", b"sub/secret.html", b"sub/%2e%2e/index.html", b"404.html", b"400.html", b"a.txt", b"sub/a", b"a/sub/index.html"]
 OUTSIDE_NAMES = [b"index.html", b"secret.txt", b"secret.html", b"a.html", b"aa", b"a.a", b"%", "é".encode(), b"outside.txt", b"html",
-                 b"private/index.html", b"private/a", b"private/secret.txt"]
+                 b"private/index.html", b"private/a", b"private/secret.txt", b"a.txt", b"a"]
+# spref: 0 None, 1 QueryMatters, 2 Full
 HANDLERS = [(b"/h", b"HANDLER-h", 2), (b"/a/a.html", b"HANDLER-a-a-html", 0), (b"/h/index.html", b"HANDLER-h-index", 2),
-            (b"/aa.html", b"HANDLER-aa-html", 2)]
+            (b"/aa.html", b"HANDLER-aa-html", 2), (b"/q", b"HANDLER-q", 1), (b"/q/index.html", b"HANDLER-q-index", 1)]
 METHODS = [b"GET", b"HEAD", b"POST", b"OPTIONS"]
+RARE_METHODS = [b"PUT", b"DELETE", b"PATCH", b"TRACE", b"CONNECT", b"FOO", b"get"]
 INTERNAL_STATUS = (403, 204)
-PIPE_COMPS = ("pathsanpipe.run", "pathsanpipe.wire")
+PIPE_COMPS = ("pathsanpipe.run", "pathsanpipe.wire", "pathsanpipe.h2", "pathsanpipe.h2raw")
+SYS_COMP = "pathsanpipe.sys"    # the in-process history in a child process under strace: (status, path strings handed to file system calls)
+SPEC_OF = {"pathsanpipe.run": "pathsanpipe.spec", "pathsanpipe.wire": "pathsanpipe.wire_spec", "pathsanpipe.h2": "pathsanpipe.h2_spec",
+           "pathsanpipe.h2raw": "pathsanpipe.h2raw_spec",
+           SYS_COMP: "pathsanpipe.spec"}
 ALIAS = "alias"   # pseudo method of a history step (ALIAS, from, to): copy the response-cache entry under `from` to the key `to`
 UNSAFE_TARGETS = [b"/../secret.txt", b"/./cors_fail", b"/./cors_options", b"//etc/passwd", b"/%2e%2e/secret.txt", b"/a/../index.html", b"/../",
                   b"/..%2fsecret.txt", b"/%2e/cors_fail", b"/a/./a", b"/../secret.", b"/.%2e/index.html", b"//", b"/%2f", b"/../../outside.txt",
-                  b"/%2e%2e%2f", b"/./", b"/sub/../../secret.html"]
+                  b"/%2e%2e%2f", b"/./", b"/sub/../../secret.html", b"http://localhost/../secret.txt", b"//localhost/secret.txt",
+                  b"/../errors/404.html", b"/%2e%2e/errors/404.html"]
 CORS_DENIED = b"CORS request denied"
+ERR_STATUSES = (400, 404, 405)
+# host options (errors_dir, extension_default, folder_default); BENIGN: the hypothesis benign_host of the confinement theorems holds
+BENIGN_OPTS = [(b"errors", b"html", b"index.html")] * 6 + [
+    (b"err", b"html", b"index.html"), (b"err/pages", b"txt", b"a"), (b"errors", b"txt", b"sub/index.html"), (b"errors", b"a.html", b"secret.txt"),
+    (b"errors", b"html", b"index."), (b"errors", b"%68tml", b"%69ndex.html"), (b"errors", b"", b""), (b"err", b"html/", b"a/"),
+    # doubly encoded: benign as long as the option is decoded exactly once (with the path it was appended to)
+    (b"errors", b"%2568tml", b"%252e%252e/secret.txt"), (b"errors", b"%252e%252e/secret.txt", b"%252e%252e%252fsecret.txt")]
+# the operator's own configuration leads outside: the model predicts it (correspondence), the oracles are not applied; the Coq
+# spec component says "not benign" for exactly these
+NON_BENIGN_OPTS = [(b"errors", b"html", b"../secret.txt"), (b"errors", b"html", b"%2e%2e/secret.txt"), (b"errors", b"/../secret.txt", b"index.html"),
+                   (b"errors", b"html", b"/index.html"), (b"errors", b"x/./y", b"index.html"), (b"errors", b"html", b"%2e/%2e%2e/secret.txt")]
 
 
-def fixture_files(public):
+def fixture_files(public, errors=b"errors", err_pages=True):
     files = []
     base = b"host/" + public + b"/"
     for n in INSIDE:
@@ -251,35 +365,69 @@ def fixture_files(public):
     for lv in levels:
         for n in OUTSIDE_NAMES:
             files.append((lv + n, SENTINEL + b":" + lv + n))
+    # the errors directory: the operator's pages for some status codes (never a sentinel: they are meant to be sent) and
+    # sentinel files beside them
+    eb = b"host/" + errors + b"/"
+    if err_pages:
+        for st in (b"400", b"404"):
+            files.append((eb + st + b".html", b"ERRFILE:" + st))
+    for n in (b"index.html", b"secret.txt", b"405.txt", b"a"):
+        files.append((eb + n, SENTINEL + b":" + eb + n))
     return files
 
 
 _FIX = {}
 
 
-def pipe_cfg(default_ext, cache, fcache, public):
-    key = (default_ext, cache, fcache, public)
+def pipe_cfg(default_ext, cache, fcache, public, opts=BENIGN_OPTS[0], err_pages=True, nofs=False, hh=b"localhost"):
+    key = (default_ext, cache, fcache, public, opts, err_pages, nofs, hh)
     if key not in _FIX:
+        errors, ext, folder = opts
         _FIX[key] = xl(xbool(default_ext), xbool(cache), xbool(fcache), xb(public),
-                       xlist([xl(xb(a), xb(b)) for a, b in fixture_files(public)]),
-                       xlist([xl(xb(a), xb(b), xn(s)) for a, b, s in HANDLERS]))
+                       xlist([xl(xb(a), xb(b)) for a, b in fixture_files(public, errors, err_pages)]),
+                       xlist([xl(xb(a), xb(b), xn(s)) for a, b, s in HANDLERS]),
+                       xl(xb(errors), xb(ext), xb(folder), xbool(nofs), xb(hh)))
     return _FIX[key]
 
 
-def pipe_case(cfgkey, reqs, kind, wire=False):
+def pipe_case(cfgkey, reqs, kind, comp="pathsanpipe.run"):
     ops = [xl(xn(1), xb(t), xb(k)) if m is ALIAS else xl(xb(m), xb(t), xn(k)) for m, t, k in reqs]
-    return Case("pathsanpipe.wire" if wire else "pathsanpipe.run", xl(pipe_cfg(*cfgkey), xlist(ops)), "pathsanpipe.wire_spec" if wire else "pathsanpipe.spec",
+    return Case(comp, xl(pipe_cfg(*cfgkey), xlist(ops)), SPEC_OF[comp],
                 {"kind": kind, "requests": sum(1 for r in reqs if r[0] is not ALIAS), "cfg": cfgkey})
 
 
 DOTDOT = [b"..", b"%2e%2e", b"%2E%2e", b".%2e", b"%2e.", b"%252e%252e", b"%252E%252E", b".%252e", b"%25252e%25252e", b"%c0%ae%c0%ae", b"..%00", b"...", b"."]
 SEP = [b"/", b"/", b"%2f", b"%2F", b"%5c", b"%5C", b"\\", b"%252f", b"%255c", b"%c0%af", b"//", b"/./", b"%00/"]
 LEAF = [b"secret.txt", b"index.html", b"", b"secret.", b"secret.html", b"outside.txt", b"a.html", b"a.", b"aa", b"private/", b"private/a", b"%",
-        b"host/secret.txt", b"public/index.html", b"html", b".", b"%2e", b"%2f", b"%252e", b"%252f"]
+        b"host/secret.txt", b"public/index.html", b"html", b".", b"%2e", b"%2f", b"%252e", b"%252f", b"errors/404.html", b"errors/secret.txt",
+        b"errors/", b"a.txt", b"a"]
 PREFIX = [b"", b"", b"a/", b"sub/", b"%2e%2e/", b"a/aa/", b"nonexistent/", b"%252e%252e/", b"a%2f", b"sub%5c"]
 PTOKENS = TOKENS + [b"%252e", b"%252f", b"%255c", b"%5C", b"\\", b"%252E", b"%2e%2e", b"%25", b"secret.txt", b"secret", b"index.html", b"html", b"sub",
-                    b"private", b"host", b"public", b"aa", b"h", b"a.html", b"index", b"?", b"?a"]
+                    b"private", b"host", b"public", b"aa", b"h", b"a.html", b"index", b"?", b"?a", b"errors", b"404.html", b"q", b"txt"]
 ENDINGS = [b"/", b".", b"%2e", b"%2f", b"%252e", b"%252f", b"/.", b"./", b"..", b"%2e/", b"/%2e", b"%5c", b"\\"]
+QUERIES = [b"", b"?", b"?x=1", b"?x=2", b"?../..", b"?/../secret.txt", b"?x=1#f", b"#f", b"?%ff", b"?a?b"]
+# request targets that are not in origin form: absolute form (any scheme, userinfo, port, IPv6 literal), authority form, "*",
+# text without a leading '/': kvarn's HTTP/1 reader (and the in-process harness) glue the target to "http://<Host header>"
+OTHER_FORMS = [b"*", b"/\xc3\xa9?\xc3\xa9#\xc3", b"/a#\xff", b"/a?\xff", b"/\xff", "/é#é".encode(), b"http://localhost/../secret.txt", b"http://localhost/index.html", b"http://localhost", b"http://localhost/", b"HTTP://LOCALHOST/a/b.txt",
+               b"https://localhost/../secret.txt", b"http://other.example/../secret.txt", b"http://localhost:80/secret.txt", b"ftp://h/../x",
+               b"http://u:p@localhost/../secret.txt", b"http://[::1]/../secret.txt", b"//localhost/../secret.txt", b"http:/../secret.txt",
+               b"http:///../secret.txt", b"://x/../secret.txt", b"localhost", b"localhost:80", b"example.com", b"../secret.txt", b"..", b".", b"a",
+               b"secret.txt", b"..%2fsecret.txt", b"%2e%2e/secret.txt", b"@evil/../x", b"@/../secret.txt", b":80/../secret.txt", b":/../secret.txt",
+               b"?/../secret.txt", b"?x", b"#/../secret.txt", b"\\..\\secret.txt", b"[::1]/../secret.txt", b"[/../secret.txt", b"]/../x", b"a:b:c/../x",
+               b"a%41/../x", b"u%41@h/../secret.txt", b"x@", b"x@/index.html", b".html", b"/..", b"*/../secret.txt", b"**", b"/*", b"h", b"q?x=1",
+               b"http://localhost/q?x=1", b"http://localhost?x", b"http://localhost#/../x", b"ws://localhost/../x", b"a+b-c.d://h/../secret.txt",
+               b"localhost/", b"localhost/../secret.txt", b"localhost//secret.txt", b".localhost/secret.txt", b"-/secret.txt"]
+OTHER_TOKENS = [b"/", b".", b"..", b"%2e", b"%2f", b":", b"@", b"[", b"]", b"*", b"?", b"#", b"a", b"%", b"http://", b"//", b"localhost", b"secret.txt", b"\\", b"%41"]
+
+
+def other_form_target(rng):
+    r = rng.random()
+    if r < 0.45:
+        return rng.choice(OTHER_FORMS)
+    if r < 0.7:
+        pre = rng.choice([b"http://localhost", b"http://", b"https://localhost:8443", b"x://", b"", b"", b"localhost", b"@", b":", b"http://a@", b"http://[::1]"])
+        return pre + rng.choice([climb_target(rng), token_target(rng, rng.random() < 0.5)])
+    return b"".join(rng.choice(OTHER_TOKENS) for _ in range(rng.randrange(1, 6)))
 
 
 def climb_target(rng):
@@ -296,56 +444,78 @@ def token_target(rng, ending=False):
     return t
 
 
+COMMON_TARGETS = [b"/", b"/index.html", b"/a/", b"/a/index.html", b"/a.", b"/a.html", b"/secret.txt", b"/secret.", b"/aa", b"/aa.", b"/h", b"/h/",
+                  b"/a/a.", b"/a/a.html", b"/a/a", b"/sub/", b"/%252e%252e/", b"/%252e%252e/index.html", b"/%2e%2e/", b"/..%5csecret.txt",
+                  "/é".encode(), b"/%c3%a9", b"/%25", b"/%5c", b"/a%5ca", b"/nonexistent", b"/a", b"/sub", b"/%2e", b"/.a/a", b"/..a", b"/a..",
+                  b"/404.html", b"/400.html", b"/404.", b"/q", b"/q/", b"/q?x=1", b"/q?x=2", b"/q?", b"/q/?x=1", b"/a/b.txt?x=1", b"/h?x=1", b"/nonexistent?x=1",
+                  b"/a.txt", b"/sub/a", b"/errors/404.html", b"/a/sub/"]
+
+
 def pipe_target(rng):
     r = rng.random()
-    if r < 0.3:
-        return climb_target(rng)
-    if r < 0.5:
-        return token_target(rng, True)
-    if r < 0.65:
-        return token_target(rng)
-    if r < 0.8:
-        return rng.choice([b"/", b"/index.html", b"/a/", b"/a/index.html", b"/a.", b"/a.html", b"/secret.txt", b"/secret.", b"/aa", b"/aa.", b"/h", b"/h/",
-                           b"/a/a.", b"/a/a.html", b"/a/a", b"/sub/", b"/%252e%252e/", b"/%252e%252e/index.html", b"/%2e%2e/", b"/..%5csecret.txt",
-                           "/é".encode(), b"/%c3%a9", b"/%25", b"/%5c", b"/a%5ca", b"/nonexistent", b"/a", b"/sub", b"/%2e", b"/.a/a", b"/..a", b"/a.."])
-    if r < 0.9:
-        return rng.choice([t for t in DIRECTED if t.startswith(b"/")])
-    return rand_target(rng)
+    if r < 0.28:
+        t = climb_target(rng)
+    elif r < 0.46:
+        t = token_target(rng, True)
+    elif r < 0.6:
+        t = token_target(rng)
+    elif r < 0.78:
+        t = rng.choice(COMMON_TARGETS)
+    elif r < 0.86:
+        t = rng.choice([t for t in DIRECTED if t.startswith(b"/")])
+    elif r < 0.93:
+        return other_form_target(rng)
+    else:
+        t = rand_target(rng)
+    if rng.random() < 0.08:
+        t = t.split(b"#")[0].split(b"?")[0] + rng.choice(QUERIES)
+    return t
 
 
-def rand_cfgkey(rng):
-    return (rng.random() < 0.65, rng.random() < 0.6, rng.random() < 0.5, rng.choice(PUBLIC_DIRS))
+# what a client may write into the Host header (HTTP/1.1): kvarn's readers parse scheme "://" Host-header target as ONE text, so a '/'
+# in the Host header starts the path there
+HOST_HEADERS = [b"localhost/..", b"localhost/%2e%2e", b"localhost/a", b"localhost?", b"localhost#", b"localhost:80", b"localhost/.", b"localhost//",
+                b"localhost/../..", b"other.example", b"localhost/sub", b"localhost/%2e", b"localhost/..%2f..", b"u@localhost", b"localhost/a/..",
+                b"localhost/%252e%252e", b"[::1]", b"localhost/q?x=1&y=", b"localhost/../errors"]
+
+
+def rand_cfgkey(rng, benign=True, hosts=True):
+    opts = rng.choice(BENIGN_OPTS) if benign else rng.choice(NON_BENIGN_OPTS)
+    hh = rng.choice(HOST_HEADERS) if hosts and rng.random() < 0.12 else b"localhost"
+    return (rng.random() < 0.65, rng.random() < 0.6, rng.random() < 0.5, rng.choice(PUBLIC_DIRS), opts, rng.random() < 0.6, rng.random() < 0.04, hh)
 
 
 def history(rng, n):
-    """n requests; targets are repeated (other method, other Origin kind, equivalent spelling) so that the cache is exercised"""
+    """n requests; targets are repeated (other method, other Origin kind, equivalent spelling, other query) so that the caches are exercised"""
     reqs = []
     while len(reqs) < n:
         if reqs and rng.random() < 0.3:
             m, t, k = rng.choice(reqs)
             v = rng.random()
-            if v < 0.5:
+            if v < 0.45:
                 pass
-            elif v < 0.7 and t.endswith(b"/"):
+            elif v < 0.6 and t.endswith(b"/"):
                 t = t + b"index.html"
-            elif v < 0.8 and t.endswith(b"."):
+            elif v < 0.7 and t.endswith(b"."):
                 t = t + b"html"
-            elif v < 0.9:
+            elif v < 0.8:
                 t = t + rng.choice(ENDINGS)
+            elif v < 0.95:
+                t = t.split(b"#")[0].split(b"?")[0] + rng.choice(QUERIES)
             reqs.append((rng.choice(METHODS) if rng.random() < 0.5 else b"GET", t, rng.choice([0, 0, 0, 1, 2, 3, 4])))
             continue
-        m = b"GET" if rng.random() < 0.6 else rng.choice(METHODS)
+        m = b"GET" if rng.random() < 0.6 else rng.choice(METHODS) if rng.random() < 0.85 else rng.choice(RARE_METHODS)
         k = 0 if rng.random() < 0.7 else rng.randrange(5)
         reqs.append((m, pipe_target(rng), k))
     return reqs
 
 
-def primed_key(t, default_ext):
+def primed_key(t, default_ext, opts=BENIGN_OPTS[0]):
     p = t.split(b"#")[0].split(b"?")[0]
     if default_ext and p.endswith(b"."):
-        return p + b"html"
+        return p + opts[1]
     if default_ext and p.endswith(b"/"):
-        return p + b"index.html"
+        return p + opts[2]
     return p
 
 
@@ -359,45 +529,77 @@ def poisoned_history(rng, default_ext):
         t, key = rng.choice(sources)
         reqs.append((rng.choice([b"GET", b"GET", b"HEAD"]), t, 0))
         u = rng.choice(UNSAFE_TARGETS) if rng.random() < 0.7 else pipe_target(rng)
-        to = rng.choice([primed_key(u, default_ext), primed_key(u, default_ext), u, b"/./cors_fail", b"/./cors_options", b"/zz"])
+        to = rng.choice([primed_key(u, default_ext), primed_key(u, default_ext), u, b"/./cors_fail", b"/./cors_options", b"/zz", b"//localhost/../secret.txt"])
         reqs.append((ALIAS, key, to))
         for _ in range(rng.randrange(1, 4)):
             reqs.append((rng.choice([b"GET", b"GET", b"HEAD", b"POST", b"OPTIONS"]), rng.choice([u, u, to, b"/zz"]), rng.choice([0, 0, 0, 2, 3, 4])))
     return reqs
 
 
+def fcache_history(rng):
+    """error pages and files with equal basenames inside / outside the public directory, every target several times: the file cache
+    (keyed by the path string, with negative entries) answers the later ones"""
+    pool = [b"/404.html", b"/400.html", b"/404.", b"/nonexistent", b"/nonexistent2", b"/../errors/404.html", b"/errors/404.html", b"/a.txt", b"/a",
+            b"/secret.txt", b"/index.html", b"/", b"/sub/", b"/a/", b"/../secret.txt", b"//secret.txt", b"/a/b.txt", b"/%2e%2e/errors/404.html",
+            b"/404.html?x", b"/h", b"/q?x=1", b"/q?x=2", b"/nonexistent/", b"/nonexistent.", b"/sub/a", b"/%34%30%34.html"]
+    return [(rng.choice([b"GET", b"GET", b"GET", b"HEAD", b"POST"]), rng.choice(pool), 0) for _ in range(rng.randrange(12, 28))]
+
+
+def query_history(rng):
+    """QueryMatters handlers and query targets: entries keyed by path+query and by path alone"""
+    pool = [b"/q", b"/q?", b"/q?x=1", b"/q?x=2", b"/q?x=1#f", b"/q/", b"/q/?x=1", b"/q/index.html?x=1", b"/q/index.html", b"/h?x=1", b"/h?x=2", b"/h",
+            b"/a/b.txt?x=1", b"/a/b.txt?x=2", b"/a/b.txt", b"/?x=1", b"/?x=2", b"/nonexistent?x=1", b"/nonexistent?x=2", b"/qx=1", b"/q%3fx=1",
+            b"/../secret.txt?x=1", b"/q?/../secret.txt", b"/q?x=1?y", b"/index.html?", b"/a/a.html?x=1"]
+    return [(rng.choice([b"GET", b"GET", b"GET", b"HEAD", b"POST", b"OPTIONS"]), rng.choice(pool), rng.choice([0, 0, 0, 0, 2, 3])) for _ in range(rng.randrange(12, 28))]
+
+
 # the history of Example ex_history in Properties/C01.v (evaluated there by the Coq kernel): run on the real code and on the
 # extracted model each time, and compared with the value the kernel computed — ties the extraction of PathSanPipe to the kernel
-EX_FILES = [(b"host/public/index.html", b"INDEX"), (b"host/public/a/b.txt", b"AB"), (b"host/secret.txt", b"SECRET"), (b"outside.txt", b"OUTSIDE")]
+EX_FILES = [(b"host/public/index.html", b"INDEX"), (b"host/public/a/b.txt", b"AB"), (b"host/errors/404.html", b"E404"), (b"host/secret.txt", b"SECRET"),
+            (b"outside.txt", b"OUTSIDE")]
 EX_HISTORY = [(b"GET", b"/", 0), (b"GET", b"/index.html", 0), (b"GET", b"/../secret.txt", 0), (ALIAS, b"/index.html", b"/%2e%2e/secret.txt"),
-              (b"GET", b"/%2e%2e/secret.txt", 0), (b"GET", b"/%252e%252e/", 0), (b"GET", b"/a/b.txt", 2), (b"GET", b"/./cors_fail", 0)]
-EX_EXPECTED = ("(L (L (N 200) (B %s) (L (B 7066))) (L (N 200) (B %s) (L)) (L (N 400) (B %s) (L)) (L (N 1)) (L (N 400) (B %s) (L)) "
-               "(L (N 404) (B %s) (L (B 7066))) (L (N 403) (B %s) (L)) (L (N 400) (B %s) (L)))"
-               % (b"INDEX".hex(), b"INDEX".hex(), b"ERRPAGE".hex(), b"ERRPAGE".hex(), b"ERRPAGE".hex(), CORS_DENIED.hex(), b"ERRPAGE".hex()))
+              (b"GET", b"/%2e%2e/secret.txt", 0), (b"GET", b"/%252e%252e/", 0), (b"GET", b"/%252e%252e/x", 0), (b"GET", b"/a/b.txt", 2),
+              (b"GET", b"/./cors_fail", 0), (b"GET", b"http://localhost/../secret.txt", 0)]
+
+
+def _ans(status, body, log=(), opened=()):
+    return "(L (N %d) (B %s) %s %s)" % (status, body.hex(), "(L" + "".join(" (B %s)" % x.hex() for x in log) + ")",
+                                        "(L" + "".join(" (B %s)" % x.hex() for x in opened) + ")")
+
+
+EX_EXPECTED = "(L " + " ".join([
+    _ans(200, b"INDEX", [b"pf"], [b"host/public/index.html"]), _ans(200, b"INDEX"), _ans(400, b"ERRPAGE"), "(L (N 1))", _ans(400, b"ERRPAGE"),
+    _ans(404, b"E404", [b"pf"], [b"host/errors/404.html"]), _ans(404, b"E404", [b"pf"]), _ans(403, CORS_DENIED), _ans(400, b"ERRPAGE"),
+    _ans(400, b"ERRPAGE")]) + ")"
 
 
 def pinned_case():
-    cfg = xl(xbool(True), xbool(True), xbool(True), xb(b"public"), xlist([xl(xb(a), xb(b)) for a, b in EX_FILES]), xlist([]))
+    cfg = xl(xbool(True), xbool(True), xbool(True), xb(b"public"), xlist([xl(xb(a), xb(b)) for a, b in EX_FILES]), xlist([]),
+             xl(xb(b"errors"), xb(b"html"), xb(b"index.html"), xbool(False), xb(b"localhost")))
     ops = [xl(xn(1), xb(t), xb(k)) if m is ALIAS else xl(xb(m), xb(t), xn(k)) for m, t, k in EX_HISTORY]
-    return Case("pathsanpipe.run", xl(cfg, xlist(ops)), "pathsanpipe.spec", {"kind": "pipe-kernel-pinned", "requests": 7, "pinned": EX_EXPECTED})
+    return Case("pathsanpipe.run", xl(cfg, xlist(ops)), "pathsanpipe.spec", {"kind": "pipe-kernel-pinned", "requests": 9, "pinned": EX_EXPECTED})
 
 
 def chunks(l, n):
     return [l[i:i + n] for i in range(0, len(l), n)]
 
 
+D0 = BENIGN_OPTS[0]
+
+
 def pipe_cases(rng, tier):
     import itertools
     cases = [pinned_case()]
-    directed = [t for t in DIRECTED if t.startswith(b"/")]
-    # 1. the hand-written list through every combination of default extensions / response cache, GET, no Origin header
+    directed = [t for t in DIRECTED if t]
+    q = tier == "quick"
+    # 1. the hand-written list (every target form) through every combination of default extensions / response cache, GET, no Origin header
     for de in (True, False):
         for ca in (True, False):
-            for pub in (PUBLIC_DIRS if tier == "thorough" else PUBLIC_DIRS[:1] if not de else PUBLIC_DIRS[::2]):
-                for ch in chunks(directed, 30):
-                    cases.append(pipe_case((de, ca, ca, pub), [(b"GET", t, 0) for t in ch], "pipe-directed"))
+            for pub in (PUBLIC_DIRS if not q else PUBLIC_DIRS[:1] if not de else PUBLIC_DIRS[::2]):
+                for ch in chunks(directed + OTHER_FORMS, 30):
+                    cases.append(pipe_case((de, ca, ca, pub, D0, ca, False), [(b"GET", t, 0) for t in ch], "pipe-directed"))
     # 2. the hand-written list with methods and Origin kinds, each target twice in a row (second answer may come from the cache)
-    for rep in range(2 if tier == "quick" else 8):
+    for rep in range(2 if q else 8):
         rows = []
         for t in directed:
             m1, m2 = rng.choice(METHODS), rng.choice(METHODS)
@@ -405,40 +607,124 @@ def pipe_cases(rng, tier):
         for ch in chunks(rows, 30):
             cases.append(pipe_case(rand_cfgkey(rng), ch, "pipe-directed-methods"))
     # 3. bounded-exhaustive token strings through the pipeline
-    full = 3 if tier == "quick" else 5
+    full = 3 if q else 5
     for L in range(0, full + 1):
         allt = [b"/" + b"".join(c) for c in itertools.product(TOKENS, repeat=L)]
         for de in ((True, False) if L <= 4 else (True,)):
             for ch in chunks(allt, 28):
-                cases.append(pipe_case((de, True, True, b"public"), [(b"GET", t, 0) for t in ch], "pipe-exhaustive"))
+                cases.append(pipe_case((de, True, True, b"public", D0, True, False), [(b"GET", t, 0) for t in ch], "pipe-exhaustive"))
+    n = 100 if q else 1500
     # 4. traversal spellings (single / double encodings, backslashes, overlong forms) x prefixes x leaves
-    n = 120 if tier == "quick" else 1500
     for _ in range(n):
         cases.append(pipe_case(rand_cfgkey(rng), [(b"GET" if rng.random() < 0.8 else rng.choice(METHODS), climb_target(rng), 0)
                                                  for _ in range(25)], "pipe-climb"))
-    # 5. token strings with an ending that triggers (or nearly triggers) the redirect Prime
+    # 5. token strings with an ending that triggers (or nearly triggers) the redirect Prime, under every (benign) choice of
+    #    extension_default / folder_default
     for _ in range(n):
-        cases.append(pipe_case((True, rng.random() < 0.5, rng.random() < 0.5, rng.choice(PUBLIC_DIRS)),
+        cases.append(pipe_case((True, rng.random() < 0.5, rng.random() < 0.5, rng.choice(PUBLIC_DIRS), rng.choice(BENIGN_OPTS), rng.random() < 0.5, False),
                                [(b"GET", token_target(rng, True), 0) for _ in range(25)], "pipe-endings"))
-    # 6. mixed histories: repeated targets, methods, Origin kinds, all configurations
+    # 6. mixed histories: repeated targets, methods, Origin kinds, queries, every target form, all configurations
     for _ in range(n):
         cases.append(pipe_case(rand_cfgkey(rng), history(rng, rng.randrange(10, 31)), "pipe-history"))
     # 7. arbitrary cache content: entries copied to the keys of unsafe requests / of the CORS overrides
     for _ in range(n):
         de = rng.random() < 0.6
-        cases.append(pipe_case((de, True, rng.random() < 0.5, rng.choice(PUBLIC_DIRS)), poisoned_history(rng, de), "pipe-poisoned-cache"))
-    # 8. the same through the front door: HTTP/1.1 text to a real kvarn server (RunConfig::execute) on a loopback port
+        cases.append(pipe_case((de, True, rng.random() < 0.5, rng.choice(PUBLIC_DIRS), D0, rng.random() < 0.5, False), poisoned_history(rng, de), "pipe-poisoned-cache"))
+    # 8. the file cache and the operator's error pages; QueryMatters handlers and query targets; other request-target forms
+    for _ in range(n // 2):
+        k = rand_cfgkey(rng)
+        cases.append(pipe_case((k[0], k[1], rng.random() < 0.8, k[3], k[4], rng.random() < 0.8, False), fcache_history(rng), "pipe-file-cache"))
+        k = rand_cfgkey(rng)
+        cases.append(pipe_case((k[0], True, k[2], k[3], k[4], k[5], False), query_history(rng), "pipe-query"))
+        cases.append(pipe_case(rand_cfgkey(rng), [(rng.choice(METHODS) if rng.random() < 0.3 else b"GET", other_form_target(rng), rng.choice([0, 0, 0, 2, 3]))
+                                                 for _ in range(25)], "pipe-target-forms"))
+    # 9. a host whose OWN options lead outside the public directory (hypothesis benign_host violated): the model must still predict
+    #    the answers; the confinement oracles are not applied (the Coq spec component says "not benign")
+    for _ in range(12 if q else 150):
+        cases.append(pipe_case(rand_cfgkey(rng, benign=False), [(b"GET", rng.choice(COMMON_TARGETS + [b"/", b"/a/", b"/secret.", b"/sub/"]), 0) for _ in range(15)],
+                               "pipe-non-benign-options"))
+    # 10. the same through the front door: HTTP/1.1 text over a loopback connection to kvarn::handle_connection
     for de in (True, False):
         for ca in (True, False):
-            for ch in chunks(directed, 30):
-                cases.append(pipe_case((de, ca, ca, b"public"), [(b"GET", t, 0) for t in ch], "wire-directed", wire=True))
+            for ch in chunks(directed + OTHER_FORMS, 30):
+                cases.append(pipe_case((de, ca, ca, b"public", D0, ca, False), [(b"GET", t, 0) for t in ch], "wire-directed", "pathsanpipe.wire"))
     for _ in range(n // 4):
-        cases.append(pipe_case(rand_cfgkey(rng), history(rng, rng.randrange(10, 31)), "wire-history", wire=True))
+        cases.append(pipe_case(rand_cfgkey(rng), history(rng, rng.randrange(10, 31)), "wire-history", "pathsanpipe.wire"))
         cases.append(pipe_case(rand_cfgkey(rng), [(b"GET" if rng.random() < 0.8 else rng.choice(METHODS), climb_target(rng), 0) for _ in range(25)],
-                               "wire-climb", wire=True))
+                               "wire-climb", "pathsanpipe.wire"))
         de = rng.random() < 0.6
-        cases.append(pipe_case((de, True, rng.random() < 0.5, rng.choice(PUBLIC_DIRS)), poisoned_history(rng, de), "wire-poisoned-cache", wire=True))
+        cases.append(pipe_case((de, True, rng.random() < 0.5, rng.choice(PUBLIC_DIRS), D0, True, False), poisoned_history(rng, de), "wire-poisoned-cache", "pathsanpipe.wire"))
+        cases.append(pipe_case(rand_cfgkey(rng), [(rng.choice(METHODS) if rng.random() < 0.3 else b"GET", other_form_target(rng), rng.choice([0, 0, 0, 2, 3]))
+                                                 for _ in range(25)], "wire-target-forms", "pathsanpipe.wire"))
+    # 10b. a part of the path in the Host header
+    hh_targets = [b"/secret.txt", b"/", b"/index.html", b"/../secret.txt", b"/..", b"/a/b.txt", b"/%2e%2e/secret.txt", b"secret.txt", b"/q?x=1", b"/errors/404.html",
+                  b"/404.html", b"/nonexistent", b"*", b"?x"]
+    for hh in HOST_HEADERS:
+        for comp in ("pathsanpipe.run", "pathsanpipe.wire"):
+            de = rng.random() < 0.6
+            cases.append(pipe_case((de, True, True, rng.choice(PUBLIC_DIRS), D0, True, False, hh),
+                                   [(rng.choice([b"GET", b"GET", b"HEAD", b"OPTIONS"]), t, rng.choice([0, 0, 1, 2, 4])) for t in hh_targets], "host-header", comp))
+    # 11. and over TLS + HTTP/2 (':path' as the h2 client sends it: origin form incl. double encodings, queries)
+    for de in (True, False):
+        for ch in chunks([t for t in directed if t.startswith(b"/")], 40):
+            cases.append(pipe_case((de, True, True, b"public", D0, True, False), [(b"GET", t, 0) for t in ch], "h2-directed", "pathsanpipe.h2"))
+    for _ in range(n // 8):
+        cases.append(pipe_case(rand_cfgkey(rng), history(rng, rng.randrange(10, 31)), "h2-history", "pathsanpipe.h2"))
+        cases.append(pipe_case(rand_cfgkey(rng), [(b"GET" if rng.random() < 0.8 else rng.choice(METHODS), climb_target(rng), 0) for _ in range(25)],
+                               "h2-climb", "pathsanpipe.h2"))
+    # 11b. TLS + HTTP/2 with hand-written HEADERS frames: ANY text as ':path' (no leading '/', absolute form, '*', '?x', ...): what
+    #      http::uri::PathAndQuery refuses never becomes a request, the rest is sanitised like any other path
+    for de in (True, False):
+        for ch in chunks(directed + OTHER_FORMS, 40):
+            cases.append(pipe_case((de, True, True, b"public", D0, True, False), [(b"GET", t, 0) for t in ch], "h2raw-directed", "pathsanpipe.h2raw"))
+    for _ in range(n // 8):
+        cases.append(pipe_case(rand_cfgkey(rng), history(rng, rng.randrange(10, 31)), "h2raw-history", "pathsanpipe.h2raw"))
+        cases.append(pipe_case(rand_cfgkey(rng), [(rng.choice(METHODS) if rng.random() < 0.3 else b"GET", other_form_target(rng), rng.choice([0, 0, 0, 2, 3]))
+                                                 for _ in range(25)], "h2raw-target-forms", "pathsanpipe.h2raw"))
+    # 12. under a system-call trace (strace -f -e trace=%file on a child harness process): every path string handed to open / stat /
+    #     access ..., successful or not (inotify sees successful opens only)
+    for de in (True, False):
+        for fc in (True, False):
+            cases.append(pipe_case((de, True, fc, b"public", D0, True, False), [(b"GET", t, 0) for t in UNSAFE_TARGETS + COMMON_TARGETS[:20]], "sys-directed", SYS_COMP))
+    for _ in range(8 if q else 150):
+        cases.append(pipe_case(rand_cfgkey(rng), history(rng, 25), "sys-history", SYS_COMP))
+        cases.append(pipe_case(rand_cfgkey(rng), [(b"GET" if rng.random() < 0.8 else rng.choice(METHODS), climb_target(rng), 0) for _ in range(25)], "sys-climb", SYS_COMP))
+        k = rand_cfgkey(rng)
+        cases.append(pipe_case((k[0], k[1], True, k[3], k[4], True, False), fcache_history(rng), "sys-file-cache", SYS_COMP))
     return cases
+
+
+def sys_ok(c, i, s):
+    """the system-call trace: an unsafe request is answered 400 and no file-related system call gets a path below the run directory other
+    than the operator's page for status 400; with benign options every such path string is below the public directory or is the
+    operator's error page for the status of the answer"""
+    rows = _pipe_rows(c, i)
+    sv = kv.xparse(s)
+    if rows is None or sv[0] != "L" or len(sv[1]) != len(rows) + 1:
+        c.meta["why"] = "malformed pipeline output"
+        return False
+    g = _cfg(c)
+    benign = sv[1][0] == ("N", 1)
+    pub = b"host/" + g["pub"] + b"/"
+    for idx, ((r, o), f) in enumerate(zip(rows, sv[1][1:])):
+        if f in (("N", 97), ("N", 96)):
+            continue
+        if o[0] != "L" or len(o[1]) != 2:
+            c.meta["why"] = "no answer: " + _req_text(c, idx, r) + " -> " + kv.pretty(o)
+            return False
+        status, touched = o[1][0][1], [x[1] for x in o[1][1][1]]
+        if (status == 400) != (f[1] == 1):
+            c.meta["why"] = ("unsafe path not rejected: " if f[1] == 1 else "safe path rejected with 400: ") + _req_text(c, idx, r) + " -> status %d" % status
+            return False
+        page = b"host/" + g["errors"] + b"/%d.html" % status
+        for x in touched:
+            if x == page or (f[1] == 0 and benign and x.startswith(pub)):
+                continue
+            if f[1] == 1 or benign:
+                c.meta["why"] = "a file-related system call was made with the path %r while the request was handled (allowed: %s%r): " % (
+                    x, "" if f[1] == 1 else "below %r and " % pub, page) + _req_text(c, idx, r) + " -> status %d" % status
+                return False
+    return True
 
 
 def _pipe_rows(c, i):
@@ -449,21 +735,63 @@ def _pipe_rows(c, i):
     return list(zip(reqs, iv[1]))
 
 
+def _cfg(c):
+    cfg = c.x[1][0][1]
+    o = cfg[6][1]
+    return {"de": cfg[0][1], "ca": cfg[1][1], "fc": cfg[2][1], "pub": cfg[3][1], "errors": o[0][1], "ext": o[1][1], "folder": o[2][1], "nofs": o[3][1],
+            "hh": o[4][1]}
+
+
 def _req_text(c, idx, r):
-    de, ca, fc, pub = c.x[1][0][1][0][1], c.x[1][0][1][1][1], c.x[1][0][1][2][1], c.x[1][0][1][3][1]
-    return "request #%d %s %r origin_kind=%d (default_ext=%d cache=%d fcache=%d public_dir=%r)" % (
-        idx, r[1][0][1].decode(), r[1][1][1], r[1][2][1], de, ca, fc, pub)
+    g = _cfg(c)
+    return "%s request #%d %s %r origin_kind=%d (default_ext=%d cache=%d fcache=%d public_dir=%r errors_dir=%r extension_default=%r folder_default=%r disable_fs=%d host_header=%r)" % (
+        c.comp, idx, r[1][0][1].decode(), r[1][1][1], r[1][2][1], g["de"], g["ca"], g["fc"], g["pub"], g["errors"], g["ext"], g["folder"], g["nofs"], g["hh"])
+
+
+_FILES = {}
+
+
+def _files(c):
+    """the fixture's files, read off the case's own input: (contents below the public directory | handlers' bodies, error pages by status)"""
+    cfg = c.x[1][0][1]
+    k = id(cfg)
+    if k not in _FILES:
+        g = _cfg(c)
+        pre = b"host/" + g["pub"] + b"/"
+        epre = b"host/" + g["errors"] + b"/"
+        allowed = {f[1][1][1] for f in cfg[4][1] if f[1][0][1].startswith(pre)} | {h[1][1][1] for h in cfg[5][1]}
+        errs = {}
+        for f in cfg[4][1]:
+            p = f[1][0][1]
+            if p.startswith(epre) and p.endswith(b".html") and p[len(epre):-5].isdigit():
+                errs[int(p[len(epre):-5])] = f[1][1][1]
+        _FILES[k] = (cfg, allowed, errs)
+    return _FILES[k][1], _FILES[k][2]
+
+
+def _headless(c, r, body):
+    return c.comp in ("pathsanpipe.wire", "pathsanpipe.h2", "pathsanpipe.h2raw") and r[1][0][1] == b"HEAD" and body == b""
 
 
 def pipe_spec_ok(c, i, s):
-    """(b): status 400 exactly when the percent-decoded path is unsafe (Coq spec component, independent of serve / sanitize_path); then
-    nothing but the error page comes back and no Prepare extension was consulted or run"""
+    """(b): status 400 exactly when the percent-decoded path is unsafe (Coq spec component, independent of serve_st / sanitize_path); then
+    nothing but the (generated or operator's) 400 page comes back, no Prepare extension was consulted or run, and nothing but the
+    operator's 400 page was opened"""
     rows = _pipe_rows(c, i)
     sv = kv.xparse(s)
-    if rows is None or sv[0] != "L" or len(sv[1]) != len(rows):
+    if rows is None or sv[0] != "L" or len(sv[1]) != len(rows) + 1:
         c.meta["why"] = "malformed pipeline output"
         return False
-    for idx, ((r, o), f) in enumerate(zip(rows, sv[1])):
+    g = _cfg(c)
+    _, errs = _files(c)
+    # is the hypothesis benign_host of the confinement theorems met?  — decided by the Coq predicate (benign_host_b, spec component), which must
+    # agree with the generator's two lists
+    c.meta["benign"] = sv[1][0] == ("N", 1)
+    if c.meta["benign"] != (c.meta.get("cfg", (0, 0, 0, 0, D0))[4] in BENIGN_OPTS):
+        c.meta["why"] = "the Coq predicate benign_host_b and the generator disagree about the options %r" % (c.meta.get("cfg", (0, 0, 0, 0, D0))[4],)
+        return False
+    page400 = b"host/" + g["errors"] + b"/400.html"
+    for idx, ((r, o), f) in enumerate(zip(rows, sv[1][1:])):
         if f == ("N", 97):
             continue
         if f == ("N", 96):
@@ -471,36 +799,32 @@ def pipe_spec_ok(c, i, s):
                 c.meta["why"] = "a target refused by the specification's URI grammar was served: " + _req_text(c, idx, r)
                 return False
             continue
-        if o[0] != "L" or len(o[1]) != 3:
-            c.meta["why"] = "no answer (panic / undecodable body): " + _req_text(c, idx, r) + " -> " + kv.pretty(o)
+        if o[0] != "L" or len(o[1]) != 4:
+            c.meta["why"] = "no answer (panic / undecodable body / refused although the URI grammar accepts it): " + _req_text(c, idx, r) + " -> " + kv.pretty(o)
             return False
-        status, body, log = o[1][0][1], o[1][1][1], o[1][2][1]
+        status, body, log, opened = o[1][0][1], o[1][1][1], o[1][2][1], [x[1] for x in o[1][3][1]]
         if (status == 400) != (f[1] == 1):
             c.meta["why"] = ("unsafe path not rejected: " if f[1] == 1 else "safe path rejected with 400: ") + _req_text(c, idx, r) + \
                 " -> status %d body %r" % (status, body[:80])
             return False
-        if status == 400 and ((body != b"ERRPAGE" and not (c.comp == "pathsanpipe.wire" and r[1][0][1] == b"HEAD" and body == b"")) or log):
-            c.meta["why"] = "400 but a Prepare extension was consulted or content returned: " + _req_text(c, idx, r) + " -> " + kv.pretty(o)
-            return False
+        if f[1] == 1:
+            ok_body = body == b"ERRPAGE" or (400 in errs and body == errs[400] and not g["nofs"]) or _headless(c, r, body)
+            if not ok_body or log:
+                c.meta["why"] = "400 but a Prepare extension was consulted or content returned: " + _req_text(c, idx, r) + " -> " + kv.pretty(o)
+                return False
+            if any(x != page400 for x in opened):
+                c.meta["why"] = "an unsafe request made the server open %r (only the operator's page for status 400, %r, may be read): " % (
+                    [x for x in opened if x != page400][:3], page400) + _req_text(c, idx, r)
+                return False
     return True
-
-
-_ALLOWED = {}
-
-
-def _allowed_bodies(c):
-    """contents of the fixture's files below the public directory and the handlers' bodies, read off the case's own input"""
-    cfg = c.x[1][0][1]
-    k = id(cfg)
-    if k not in _ALLOWED:
-        pre = b"host/" + cfg[3][1] + b"/"
-        _ALLOWED[k] = (cfg, {f[1][1][1] for f in cfg[4][1] if f[1][0][1].startswith(pre)} | {h[1][1][1] for h in cfg[5][1]})
-    return _ALLOWED[k][1]
 
 
 def extra_oracle(c, i):
     """model-independent: (a) no sentinel content from outside the public directory in any body; (c) the internal CORS handlers answer
-    only when a CORS Prime extension produced the override (never for a request without a foreign Origin / preflight headers)"""
+    only when a CORS Prime extension produced the override (never for a request without a foreign Origin / preflight headers); (d) a 200
+    body is a public file's content or a handler's; (e) no object outside the public directory is ever OPENED, except the operator's error
+    page for the status of the answer (and, for a path ending in '..', the directory containing the public directory — a directory has no
+    content). (a), (d), (e) are the theorems' conclusions: they are checked when the host's options are benign (their hypothesis)."""
     if c.comp not in PIPE_COMPS:
         return None
     if "pinned" in c.meta and i != c.meta["pinned"]:
@@ -508,21 +832,45 @@ def extra_oracle(c, i):
     rows = _pipe_rows(c, i)
     if rows is None:
         return "malformed pipeline output " + i[:100]
-    default_ext = c.x[1][0][1][0][1] == 1
+    g = _cfg(c)
+    default_ext = g["de"] == 1
+    benign = c.meta.get("benign", c.meta.get("cfg", (0, 0, 0, 0, D0))[4] in BENIGN_OPTS)
+    allowed, errs = _files(c)
+    pub = b"host/" + g["pub"]
+    parent = pub.rsplit(b"/", 1)[0] + b"/"
     for idx, (r, o) in enumerate(rows):
-        if o[0] != "L" or len(o[1]) != 3 or r[1][0][0] == "N":
+        if o[0] != "L" or len(o[1]) != 4 or r[1][0][0] == "N":
             continue
-        status, body, log = o[1][0][1], o[1][1][1], o[1][2][1]
+        status, body, log, opened = o[1][0][1], o[1][1][1], o[1][2][1], [x[1] for x in o[1][3][1]]
         m, k = r[1][0][1], r[1][2][1]
-        if SENTINEL in body:
-            return "content of a file outside the public directory returned: " + _req_text(c, idx, r) + " -> status %d body %r" % (status, body[:80])
+        # Cors::is_part_of_origin compares the AUTHORITY of the URI ("localhost" + what the target has before its first '/', '?', '#')
+        # with the Origin header's: with such a target the site's own Origin is a foreign one
+        if c.comp in ("pathsanpipe.run", "pathsanpipe.wire"):
+            import re
+            auth = re.split(rb"[/?#]", g["hh"] + r[1][1][1], maxsplit=1)[0]
+            if k in (1, 4) and auth != b"localhost":
+                k = {1: 2, 4: 3}[k]
+            elif k in (2, 3) and auth == b"other.example":      # the harness's "foreign" Origin is then the request's own
+                k = {2: 1, 3: 4}[k]
         may_override = default_ext and (k in (2, 3) or (k == 4 and m == b"OPTIONS"))
         if not may_override and (status in INTERNAL_STATUS or body == CORS_DENIED):
             return "an internal /./cors_* handler answered a request no CORS Prime extension rerouted: " + _req_text(c, idx, r) + \
                 " -> status %d body %r" % (status, body[:80])
-        head_on_wire = c.comp == "pathsanpipe.wire" and m == b"HEAD" and body == b""
-        if status == 200 and body not in _allowed_bodies(c) and not head_on_wire:
+        if not benign:
+            continue
+        if SENTINEL in body:
+            return "content of a file outside the public directory returned: " + _req_text(c, idx, r) + " -> status %d body %r" % (status, body[:80])
+        if status == 200 and body not in allowed and not _headless(c, r, body):
             return "200 with a body that is neither a public file's content nor a handler's: " + _req_text(c, idx, r) + " -> %r" % body[:80]
+        if status != 200 and body not in (b"ERRPAGE", b"", CORS_DENIED) and body != errs.get(status):
+            return "an error answer whose body is neither generated nor the operator's page for its status: " + _req_text(c, idx, r) + \
+                " -> status %d body %r" % (status, body[:80])
+        page = b"host/" + g["errors"] + b"/%d.html" % status
+        for x in opened:
+            if x.startswith(pub + b"/") or x == page or x == parent or (x == pub + b"/"):
+                continue
+            return "the server opened %r, which is neither below the public directory nor the operator's error page %r: " % (x, page) + _req_text(c, idx, r) + \
+                " -> status %d" % status
     return None
 
 
@@ -542,6 +890,14 @@ def generate(rng, tier):
     for L in range(1, 4):
         for pre in itertools.product(TOKENS, repeat=L):
             cases.append(direct(b"".join(pre), "other-form"))
+    # ... and over an alphabet of scheme / authority / separator tokens (absolute form, authority form, userinfo, ports, IPv6 brackets)
+    for t in OTHER_FORMS:
+        cases.append(direct(t, "other-form"))
+    for L in range(1, 3):
+        for pre in itertools.product(OTHER_TOKENS, repeat=L):
+            cases.append(direct(b"".join(pre), "other-form"))
+    for _ in range(1500 if tier == "quick" else 20000):
+        cases.append(direct(other_form_target(rng), "other-form"))
     # a full-detail sample of the exhaustive space and random longer targets
     nd = 3000 if tier == "quick" else 40000
     for _ in range(nd):
@@ -567,6 +923,8 @@ def generate(rng, tier):
 def spec_ok(c, i, s):
     if c.comp in PIPE_COMPS:
         return pipe_spec_ok(c, i, s)
+    if c.comp == SYS_COMP:
+        return sys_ok(c, i, s)
     if c.comp == "pathsan.batch":
         return i == s
     # direct: implementation (path, decoded, sanitize, utf8 decoding, fs path) against (must be accepted?, must decode?)
@@ -581,7 +939,7 @@ def spec_ok(c, i, s):
 
 
 def signature(c, m):
-    if c.comp in PIPE_COMPS:
+    if c.comp in PIPE_COMPS or c.comp == SYS_COMP:
         return "pipe"
     if c.comp == "pathsan.direct":
         v = kv.xparse(m)
@@ -594,28 +952,61 @@ def signature(c, m):
 
 
 LEVEL_TEXT = ("Machine-checked Coq theorems, for ALL byte strings, over a byte-level model of percent_decode / sanitize_request / make_path / "
-              "the pipeline from handle_cache to read_file: an accepted path walks only downwards from the public directory until its last "
-              "segment and a returned file content always comes from inside the public directory of an arbitrary file tree (POSIX resolution "
-              "without symlinks); exactly the paths whose percent-decoded bytes contain './', are not rooted or start with '//' are rejected, "
-              "answered 400 without cache, Prepare or file read; no accepted path (raw or decoded) contains './', so the internal /./ routes "
-              "are reachable only through a Prime result; check and use decode once and identically. Lifted to ALL histories of requests "
-              "with the response cache threaded through (induction with a cache invariant): every body ever answered, computed or cached, "
-              "is generated, a handler's, or a public file's content; an unsafe request is answered 400 in every cache state and leaves the "
-              "cache alone; without a CORS override a request is answered as if the internal routes did not exist. The model is tied to "
-              "/repo on every run by a differential run of the real functions AND of the real kvarn::handle_cache (default and empty "
-              "extensions, cache on/off, fixture tree with sentinel files on disk) against the extracted model, plus three oracles on the "
-              "real answers that do not go through the model.")
+              "http::Uri / the pipeline from handle_cache to read_file and error::default with the file cache: an accepted path walks only "
+              "downwards from the public directory until its last segment and a returned file content always comes from inside the public "
+              "directory of an arbitrary file tree (POSIX resolution without symlinks); exactly the paths whose percent-decoded bytes contain "
+              "'./', are not rooted or start with '//' are rejected, answered 400 without response cache, Prepare or read of the requested path "
+              "— in every file-cache state the only path that can reach the operating system is the operator's 400 page, and the file "
+              "cache is untouched elsewhere; the file cache is transparent (answers equal those without it, coherence is an invariant); every "
+              "error-page read goes to <host.path>/<errors_dir>/<status>.html, a function of host and status only; every object the "
+              "operating system is asked to open is that page, a directory, or strictly below the public directory; no accepted path (raw "
+              "or decoded) contains './', so the internal /./ routes are reachable only through a Prime result; check and use decode once and "
+              "identically. Lifted to ALL histories of requests (any target form) with the response cache and the file cache threaded "
+              "through (induction with a state invariant): every body ever answered — computed, from the response cache, from disk or from "
+              "the file cache — is generated, a handler's, a public file's content or an operator's error page; an unsafe request is "
+              "answered 400 in every state and leaves the response cache alone; without a CORS override a request is answered as if the "
+              "internal routes did not exist. The predicates used by the statements are pinned with their bodies. The model is tied to "
+              "/repo on every run by a differential run of the real functions AND of the real kvarn::handle_cache / "
+              "kvarn::handle_connection (in process, HTTP/1.1 over loopback, HTTP/2 over TLS; default and empty extensions, caches on/off, "
+              "operator options varied, fixture tree with sentinel files on disk) against the extracted model — including the list of "
+              "objects the server opens (inotify) and of path strings it passes to file system calls (strace) — plus oracles on the real "
+              "answers and on the observed file-system accesses that do not go through the model.")
 LEVEL_NOTE = ("Trusted: Coq kernel, extraction (ExtrOcamlBasic) reduced by an in-kernel recheck sample, the hand transcription of the Rust "
-              "code into Model/PathSan.v + Model/PathSanPipe.v as validated by the differential runs, the POSIX path-resolution model (no "
-              "symlinks), the pipeline harness. No axioms. One defect repaired on the way (sanitize tested the undecoded text when the "
-              "decoding was not UTF-8).")
+              "code into Model/PathSan.v + Model/PathSanServe.v + Model/PathSanPipe.v as validated by the differential runs, the POSIX "
+              "path-resolution model (no symlinks), the pipeline harness incl. its inotify / strace probes. No axioms. Two defects repaired on "
+              "the way: sanitize tested the undecoded text when the decoding was not UTF-8 (3565dd3); Options::get_errors_dir returned "
+              "public_data_dir, so a custom public directory moved the error pages into it and errors_dir was ignored (fbca956). Observed, "
+              "not a violation of this property: a request target that is not in origin form is glued to the Host header ('GET "
+              "http://localhost/x' has the path '//localhost/x' and is refused with 400, 'GET *' and 'OPTIONS *' are answered as '/', "
+              "'GET ../secret.txt' as '/secret.txt' of the host 'localhost..'): the path always starts at the target's first '/' and is "
+              "sanitised as sent.")
 TECHNIQUE = ("Coq proof (model satisfies spec for all inputs and all histories) + differential correspondence model vs. implementation "
-             "(direct calls, the in-process pipeline kvarn::handle_cache on a fixture tree, and a real server over loopback HTTP/1.1) + "
-             "model-independent oracles on the pipeline answers")
+             "(direct calls, the in-process pipeline kvarn::handle_cache on a fixture tree, kvarn::handle_connection over loopback HTTP/1.1 "
+             "and TLS+HTTP/2, file-system access observed with inotify and strace) + model-independent oracles on the pipeline answers and "
+             "on the observed accesses")
+
+
+def harness_trouble(cases, impl, model):
+    """a pipeline component most of whose scenarios could not be executed (no inotify instance, strace missing, connection trouble
+    under load ...) is no longer tied to the code: that is a harness error, not a quiet pass"""
+    import re
+    tot, ne = {}, {}
+    for c in cases:
+        if c.comp in PIPE_COMPS or c.comp == SYS_COMP:
+            tot[c.comp] = tot.get(c.comp, 0) + 1
+            i = impl.get(c.id)
+            if i is None or c.id not in model or re.match(r"\(L \(N 96\) \(N ", i):
+                ne.setdefault(c.comp, []).append(c.id)
+    bad = {k: v for k, v in ne.items() if len(v) > max(2, tot[k] // 10)}
+    if bad:
+        return "pipeline scenarios that could not be executed: " + "; ".join("%s %d of %d (%s ...)" % (k, len(v), tot[k], ", ".join(v[:5])) for k, v in sorted(bad.items()))
+    return None
 
 
 def extra_coverage(cases, impl, model, spec):
-    pc = [c for c in cases if c.comp in PIPE_COMPS]
+    pc = [c for c in cases if c.comp in PIPE_COMPS or c.comp == SYS_COMP]
     return {"targets_in_batches": sum(c.meta.get("targets", 0) for c in cases if c.comp == "pathsan.batch"),
             "pipeline_histories": len(pc), "pipeline_requests": sum(c.meta.get("requests", 0) for c in pc),
-            "of_which_over_loopback_http1": sum(c.meta.get("requests", 0) for c in pc if c.comp == "pathsanpipe.wire")}
+            "of_which_over_loopback_http1": sum(c.meta.get("requests", 0) for c in pc if c.comp == "pathsanpipe.wire"),
+            "of_which_over_tls_http2": sum(c.meta.get("requests", 0) for c in pc if c.comp in ("pathsanpipe.h2", "pathsanpipe.h2raw")),
+            "of_which_under_a_system_call_trace": sum(c.meta.get("requests", 0) for c in pc if c.comp == SYS_COMP)}
